@@ -13,5 +13,5 @@ for o in r['obligations']:
     if o['status']!='discharged':
         print(o['status'], o['name'], o.get('backend'), round(o.get('time_s',0),2), (o.get('reason') or '')[:300], (o.get('witness_case') or {}).get('args',''))
 print(dict(c), 'errors:', r['errors'], round(time.time()-t,1),'s')
-print('crosscheck', r['selfcheck']['cross_check'])
+print('crosscheck', r['selfcheck'].get('cross_check'))
 print('slow:', sorted([(round(o['time_s'],1),o['name']) for o in r['obligations'] if o.get('time_s',0)>2], reverse=True)[:8])
